@@ -397,7 +397,6 @@ func c04GuardedCall(p *Prog, info *types.Info, fd *ast.FuncDecl, param types.Obj
 	return out
 }
 
-
 // c04AllNames: the reserved-name exemption for a deleted enum number holds only if ALL names of that number are reserved:
 // inside the loop over the previous names the only return is `false` under a negated NameInReservedNames test, and the
 // `true` follows the loop.
